@@ -114,6 +114,10 @@ impl TopDownContext<'_, '_> {
   /// - Its output type has not changed.
   /// - All its dependencies are consistent.
   fn check_task<O: Any>(&mut self, src: &TaskNode) -> Option<&O> {
+    if self.session.store.get_task_output(src).is_none() {
+      // New task, or a task whose previous execution was aborted (which may have left a reserved dependency): execute.
+      return None;
+    }
     let dependencies: Box<[Dependency]> = self.session.store
       .get_dependencies_from_task(src)
       .map(|d| d.clone())
